@@ -1,4 +1,6 @@
 import TextxVerif.Proofs.LoadTreeFrame
+import TextxVerif.Proofs.LoadTreeHist
+import TextxVerif.LoadTreePinned
 /-!
 # C15 — a failed load leaves nothing behind
 
@@ -17,15 +19,44 @@ namespace LoadTree
 
 variable {α : Type}
 
-/-- **Nothing of the attempt stays reachable from the classes.** Objects created by the
-attempt have ids `≥ sh.next`: after a failed attempt no such key is left in any
-per-object storage, so the classes reference no part of the partially built models. -/
-theorem C15_unreachable (table : List Load) (n : Nat) (L : Load) (sh : Sh α) (hg : Good sh)
-    (_hfail : (runF table n L sh).2 = false) :
+/-- **No key of the attempt is left in any per-object storage** — whatever the outcome.  Objects
+created by the attempt have ids `≥ sh.next`: afterwards no such key is stored (after a success they
+were popped one by one right before their `__init__`, after a failure discarded by the handlers). -/
+theorem C15_no_key_left (table : List Load) (n : Nat) (L : Load) (sh : Sh α) (hg : Good sh) :
     ∀ p, p ∈ (runF table n L sh).1.attrs → p.2 < sh.next := by
   intro p hp
   rw [(runF_frame table n L sh hg).2.1] at hp
   exact hg.lt p hp
+
+/-- **Nothing of the attempt stays reachable from the classes.** Objects created by the
+attempt have ids `≥ sh.next`: after a failed attempt no such key is left in any
+per-object storage, so the classes reference no part of the partially built models.
+(Corollary of `C15_no_key_left`, which does not need the failure.) -/
+theorem C15_unreachable (table : List Load) (n : Nat) (L : Load) (sh : Sh α) (hg : Good sh)
+    (_hfail : (runF table n L sh).2 = false) :
+    ∀ p, p ∈ (runF table n L sh).1.attrs → p.2 < sh.next :=
+  C15_no_key_left table n L sh hg
+
+/-- **No parser of a failed attempt stays registered.** When the attempt of a main model fails — at
+whatever point, with whatever user code (`env` arbitrary) — the list of parsers (models) of the
+attempt that are still registered, and through which `_tx_parser` / the collected attributes could be
+reached, is empty: every one went through `_abort_model_construction` or the handler of
+`get_model_from_str` (`failOuter`).  Independent of `Good`. -/
+theorem C15_nothing_registered (env : Env α) (L : Load) (sh : Sh α) (left : List PRec)
+    (hfail : (node env true L [] sh).2 = .error left) : left = [] :=
+  node_main_left env L sh left hfail
+
+/-- the hypothesis of `C15_nothing_registered` is what `runF … = false` means -/
+theorem C15_fail_iff (table : List Load) (n : Nat) (L : Load) (sh : Sh α) :
+    (runF table (n + 1) L sh).2 = false ↔
+      (node (tableEnv (runF table n) table) true L [] sh).2 = .error [] := by
+  simp only [runF, runMain]
+  constructor
+  · intro h
+    cases hr : (node (tableEnv (runF table n) table) true L [] sh).2 with
+    | ok _ => rw [hr] at h; simp at h
+    | error left => rw [node_main_left _ L sh left hr]
+  · intro h; rw [h]
 
 /-- **User classes are left uninstrumented.** Classes that were untouched before a
 failing attempt are untouched after it: no counter, the original methods, no cache,
@@ -53,6 +84,39 @@ theorem C15_same_as_fresh (table : List Load) (n k : Nat) (L L' : Load) (sh : Sh
   obtain ⟨h1, h2, _⟩ := runF_frame table n L sh hg
   rw [h1, h2]
 
+/-- **History form.** Any sequence of load attempts on the same classes — failing at any point or
+succeeding, each with its own nested loads to any depth — leaves every class (counter, methods,
+cache) and the stored keys exactly as the first attempt found them; the allocator only moved
+forward and the state is again one in which the theorems apply (`Good`), so the next attempt starts
+as the first one did. -/
+theorem C15_history (hist : List (List Load × Nat × Load)) (sh : Sh α) (hg : Good sh) :
+    (runHist hist sh).core = sh.core ∧ (runHist hist sh).attrs = sh.attrs ∧
+      sh.next ≤ (runHist hist sh).next ∧ Good (runHist hist sh) :=
+  ⟨(runHist_frame hist sh hg).1.core, (runHist_frame hist sh hg).1.attrs, (runHist_frame hist sh hg).1.next,
+   (runHist_frame hist sh hg).2⟩
+
+/-- after any history of attempts that started with untouched classes, the classes are untouched -/
+theorem C15_history_clean (hist : List (List Load × Nat × Load)) (orig : ClassId → α)
+    (next : Nat) (log own : List Ev) :
+    let sh : Sh α := ⟨fun c => ⟨0, .real (orig c), none⟩, [], next, log, own⟩
+    (runHist hist sh).attrs = [] ∧ ∀ c, (runHist hist sh).core c = ⟨0, .real (orig c), none⟩ := by
+  intro sh
+  have hg : Good sh := ⟨fun c => ⟨orig c, 0, rfl⟩, List.nodup_nil, fun p hp => by simp [sh] at hp⟩
+  obtain ⟨h1, h2, _⟩ := C15_history hist sh hg
+  exact ⟨h2, fun c => by rw [h1]⟩
+
+/-- **A subsequent load behaves as with a fresh metamodel, after any history.**  `runNext` = an
+attempt with its own event lists on the classes as the history left them: outcome, calls of user
+code with their instrumentation snapshots and final class states equal those of the same attempt
+on the classes as they were before the whole history (allocator state being equal: it is
+CPython's). -/
+theorem C15_same_as_fresh_history (hist : List (List Load × Nat × Load)) (table : List Load) (k : Nat)
+    (L' : Load) (sh : Sh α) (hg : Good sh) :
+    runNext table k L' (runHist hist sh) =
+      runNext table k L' { sh with next := (runHist hist sh).next } := by
+  obtain ⟨h1, h2, _⟩ := C15_history hist sh hg
+  simp only [runNext, h1, h2]
+
 /-- the allocator only moves forward: ids of the failed attempt are not handed out again -/
 theorem C15_ids_not_reused (table : List Load) (n : Nat) (L : Load) (sh : Sh α) (hg : Good sh) :
     sh.next ≤ (runF table n L sh).1.next :=
@@ -65,6 +129,42 @@ theorem C15_no_discard_false :
     ∃ (sh : Sh Nat) (P : PRec), sh.attrs = [] ∧ (alloc 0 P sh).1.attrs ≠ [] ∧
       (discard (alloc 0 P sh).2.1 (alloc 0 P sh).1).1.attrs = [] :=
   ⟨⟨fun c => ⟨0, .real c, none⟩, [], 0, [], []⟩, newRec 1 [0] [] false [], rfl, by decide, by decide⟩
+
+namespace PinnedWit
+def clean : Sh Nat := ⟨fun c => ⟨0, .real c, none⟩, [], 0, [], []⟩
+def h0 (lab : Nat) : Hook := ⟨lab, [], false⟩
+/-- single file, two nested user objects, the constructor of the inner one raises -/
+def one : Load := .mk 1 [0] true (.obj (some 0) (h0 10) [.obj (some 0) ⟨11, [], true⟩ []]) none [] [] false [] (h0 10)
+def imp : Load := .mk 2 [0] true (.obj (some 0) (h0 20) []) none [] [] false [] (h0 20)
+/-- two files, an unresolvable reference in the main file -/
+def two : Load := .mk 1 [0] true (.obj (some 0) (h0 10) []) none [imp] [] true [] (h0 10)
+/-- a file with a syntax error -/
+def bad : Load := .mk 3 [0] false (.obj (some 0) (h0 30) []) none [] [] false [] (h0 30)
+/-- a match-rule processor loads `bad` and swallows the error; another match-rule processor follows -/
+def outer : Load := .mk 1 [0] true (.obj (some 0) (h0 10) [.conv ⟨11, [(1, true)], false⟩, .conv (h0 13)])
+  none [] [] false [] (h0 10)
+end PinnedWit
+
+open PinnedWit in
+/-- **The pinned code, as a whole machine, breaks the property** (`LoadTreePinned.lean`: the same walk
+with the pinned handlers — restore without a per-parser flag, no discard, no abort of imported
+parsers; compared with the pinned tree, see `notes/C15.md`).  (1) `one`: the key of the outer object stays in
+`_tx_obj_attrs` after the failure; (2) `two`: the imported file's parser never gives back its count,
+the class stays instrumented after the failure; (3) `outer`: the failing nested load un-instruments
+the outer load, the next match-rule processor of the outer load already sees the class restored
+(`(0, false, false, 1)`: one object under construction, its attributes no longer collected).
+The repaired machine ends clean on (1), (2) and keeps the class instrumented in (3). -/
+theorem C15_pinned_false :
+    (Pinned.runFP [] 1 one clean).2 = false ∧ (Pinned.runFP [] 1 one clean).1.attrs = [(0, 0)] ∧
+    (runF [] 1 one clean).1.attrs = [] ∧
+    (Pinned.runFP [] 1 two clean).2 = false ∧
+    (Pinned.runFP [] 1 two clean).1.core 0 = ⟨1, .instr, some (.real 0)⟩ ∧
+    (runF [] 1 two clean).1.core 0 = ⟨0, .real 0, none⟩ ∧
+    ((Pinned.runFP [outer, bad] 2 outer clean).1.own.filter (·.kind == 0)).map (·.snap) =
+      [[(1, true, true, 1)], [(0, false, false, 1)]] ∧
+    ((runF [outer, bad] 2 outer clean).1.own.filter (·.kind == 0)).map (·.snap) =
+      [[(1, true, true, 1)], [(1, true, true, 1)]] := by
+  decide
 
 /-! non-vacuity: failing attempts of every phase leave the clean state -/
 section
@@ -85,6 +185,21 @@ example : (runF [] 1 (main (child (h0 22) (h0 20) true) (hx 10)) clean).2 = fals
 example : (runF [] 1 (main (child (h0 22) (hx 20) true) (h0 10)) clean).1.own.map Ev.key =
     [(0, 1, 11), (5, 2, 20), (2, 2, 22), (3, 1, 10), (3, 2, 21), (3, 2, 20)] := by decide
 example : (runF [] 1 (main (child (h0 22) (hx 20) true) (h0 10)) clean).1.attrs = [] := by decide
+/-- a history: three failing attempts (the second with a load nested in user code that fails too),
+then the repaired tree: it succeeds with the events of a load on fresh classes -/
+private def mainN (c : Load) : Load :=
+  .mk 1 [0] true (.obj (some 0) (h0 10) [.conv ⟨11, [(0, true)], false⟩]) none [c] [] false [h0 10] (h0 10)
+private def bad1 : Load := main (child (hx 22) (h0 20) true) (h0 10)
+private def bad2 : Load := mainN (child (h0 22) (hx 20) true)
+private def good : Load := main (child (h0 22) (h0 20) true) (h0 10)
+private def hist3 : List (List Load × Nat × Load) := [([], 1, bad1), ([bad1], 2, bad2), ([], 1, main (child (h0 22) (h0 20) false) (h0 10))]
+example : hist3.map (fun x => (runF x.1 x.2.1 x.2.2 clean).2) = [false, false, false] := by decide
+example : (runNext [] 1 good (runHist hist3 clean)).2 = true := by decide
+example : (runNext [] 1 good (runHist hist3 clean)).1.own = (runNext [] 1 good { clean with next := (runHist hist3 clean).next }).1.own := by decide +kernel
+example : (runHist hist3 clean).next = 10 := by decide
+/-- `C15_nothing_registered` is not vacuous: a failing main attempt -/
+example : (node (tableEnv (runF [] 0) []) true bad1 [] clean).2 = .error [] :=
+  (C15_fail_iff [] 0 bad1 clean).1 (by decide)
 end
 
 end LoadTree
